@@ -1,10 +1,20 @@
 HOOK_COMMITS = ["7de202d", "7f6c320", "bd5f58f"]
-FIX_COMMITS = ["7a73b90", "307c7cf", "73e9739", "b6ad768", "06a0422", "37593fd", "b26bda1", "ef4414e", "83534a3", "9d32858", "8df6799", "bfa46be", "d5169bc", "e984a30", "8e975df", "0e9fd95", "93bc5a2", "0df18c2"]
+FIX_COMMITS = ["7a73b90", "307c7cf", "73e9739", "b6ad768", "06a0422", "37593fd", "b26bda1", "ef4414e", "83534a3", "9d32858", "8df6799", "bfa46be", "d5169bc", "e984a30", "8e975df", "0e9fd95", "93bc5a2", "0df18c2", "dae6c16", "f32a1a0", "6b14b06", "641f662", "5fd891f", "12b678f", "5af4846", "35b9151"]
 
 NOTE_COMMON = ("Trusted: Lean kernel (axioms propext/Classical.choice/Quot.sound only), the hand-written model's "
                "fidelity outside the sampled correspondence, rustc/std and third-party crates as black boxes, the guarded hooks.")
 
 CLAIMS = {
+    "C16": {
+        "level": "Kernel-checked facts about the line-oriented reference and vicut's address evaluation, for every text, range and matcher: a resolved line/range lies "
+                 "inside the buffer and is ordered; a backwards range addresses the same lines; $ is the last line and % every line, also on the real buffer "
+                 "(last_line_number of any decomposed buffer = number of bodies - 1, terminated or not); addresses past the end name nothing and ranges are clipped; "
+                 ":s changes exactly the addressed lines and never a terminator; one match = before ++ replacement ++ after, without g only the first; :d removes exactly "
+                 "the addressed lines; :g/pat/d keeps exactly the non-matching lines. Every run executes chains of 1-4 ex commands through the real editor and compares "
+                 "the buffer after every command with a Python line-oriented reference and (s, d, g) with the Lean reference fed with the same regex verdicts.",
+        "note": NOTE_COMMON + " PARTIAL: the refinement 'vicut's grapheme-level Substitute/Delete = the reference' is established per run by the correspondence, not by a theorem (the theorems are about the reference and the address layer). Texts are NFC (a match boundary inside a grapheme cluster is outside the claim); replacement strings are literal.",
+        "technique": "Lean 4 proof about an executable line-oriented reference + address model (reusing C13's line decomposition) + three-way differential (real editor / Python reference / Lean reference)",
+    },
     "C19": {
         "level": "Kernel-checked for every ascending list of match positions (any regex engine, text and pattern), every cursor and count: /P lands on the least match "
                  "start greater than the cursor, else (wrapping) on the least one; ?P mirrors; the landing point is always a match start; with matches present a search "
